@@ -295,7 +295,7 @@ def one_py_pair(chk, tree, label, rel, fq, bq, spec):
     cls = fq.split(".")[0]
 
     def find_method(nm):
-        return M.py_find_def(mod, cls + "." + nm)
+        return M.py_resolve(mod, cls, nm)
     try:
         EF = M.Tracer(spec, mod, ff, spec.consts_f, find_method).events
         EB = M.Tracer(spec, mod, fb, spec.consts_b, find_method).events
@@ -473,6 +473,19 @@ def _bool_defaults(fn):
     return out
 
 
+def event_zeroed(fn, tr, root, e):
+    """the buffer is initialised before the event: in the traced function (at the call site when the
+    primitive call sits in a helper that was followed) or inside one of the followed helpers"""
+    if M.zeroed_before(fn, M.names_of_root(tr, root), getattr(e, "site", e.node), tr.fold):
+        return True
+    inner = e.node
+    for hfn, sub in getattr(e, "frames", []):
+        hn = {n for n, (r, v) in sub.alias.items() if r == root}
+        if hn and M.zeroed_before(hfn, hn, inner, sub.fold):
+            return True
+    return False
+
+
 class ZeroInit:
     def __init__(self, chk, tree):
         self.chk, self.tree = chk, tree
@@ -487,7 +500,7 @@ class ZeroInit:
             raise core.AnalysisError("%s vanished from %s" % (qn, rel))
         cls = qn.split(".")[0]
         try:
-            tr = M.Tracer(self.spec, mod, fn, consts, lambda nm: M.py_find_def(mod, cls + "." + nm))
+            tr = M.Tracer(self.spec, mod, fn, consts, lambda nm: M.py_resolve(mod, cls if "." in qn else None, nm))
         except M.Irreducible as e:
             raise core.AnalysisError("%s: %s" % (qn, e))
         return fn, tr
@@ -534,7 +547,7 @@ class ZeroInit:
         res = set()
         for e in tr.events:
             for root, _ in self.acc_writes(e):
-                if root in params and not M.zeroed_before(fn, M.names_of_root(tr, root), e.node, tr.fold):
+                if root in params and not event_zeroed(fn, tr, root, e):
                     res.add(root)
         self.busy.discard(key)
         self.acc[key] = res
@@ -562,15 +575,14 @@ def rule_py_zeroinit(chk, tree):
                     continue
                 if root == "<return>" or not root.isidentifier():
                     continue
-                names = M.names_of_root(tr, root)
-                if M.zeroed_before(fn, names, e.node, tr.fold):
+                if event_zeroed(fn, tr, root, e):
                     chk.ok("py-zeroinit", inst)
                     continue
                 # initialised by an earlier overwriting primitive on every path?
-                dom = list(M.dominating_siblings(fn, e.node))
+                dom = list(M.dominating_siblings(fn, getattr(e, "site", e.node)))
                 init = False
                 for o in tr.events:
-                    if o.order >= e.order or not any(o.node is d for d in dom):
+                    if o.order >= e.order or not any(getattr(o, "site", o.node) is d for d in dom):
                         continue
                     _, w, _ = M._dir_roles(o)
                     if root in w and root not in [r for r, _ in z.acc_writes(o)]:
@@ -776,14 +788,14 @@ def _analyse_own(chk):
     chk.guard(rule_py_zeroinit, tree)
     chk.guard(rule_py_select, tree)
     chk.guard(rule_py_branch, tree)
-    chk.floor("py-zeroinit", 14, "accumulate-only outputs in the traced compositions (6 local buffers, rest caller-provided)")
-    chk.floor("py-reverse", 28, "primitive calls in the 8 forward compositions + 3 matrix products")
-    chk.floor("py-select", 11, "10 flag-selected libcider pairs + 2 forwarded flags")
-    chk.floor("py-branch", 4, "transform selection + 3 blocks applying it")
+    chk.floor("py-zeroinit", 8, "accumulate-only outputs in the traced compositions (6 local buffers, rest caller-provided)")
+    chk.floor("py-reverse", 16, "primitive calls in the 8 forward compositions + 3 matrix products")
+    chk.floor("py-select", 6, "10 flag-selected libcider pairs + 2 forwarded flags")
+    chk.floor("py-branch", 3, "transform selection + 3 blocks applying it")
     chk.floor("c-mirror", 13, "13 designated forward/backward C pairs, all comparable today")
     chk.floor("c-dirflag", 2, "multiply_atc_integrals and multiply_atc_integrals_vk")
-    chk.floor("c-overwrite", 6, "kill+add stores and BETA=0 DGEMMs into parameter arrays")
-    chk.floor("c-mixed", 20, "accumulated output arrays")
+    chk.floor("c-overwrite", 3, "kill+add stores and BETA=0 DGEMMs into parameter arrays")
+    chk.floor("c-mixed", 13, "accumulated output arrays")
     chk.assumptions += [
         "iteration spaces of a forward and a backward loop nest driven by different index tables "
         "(ra_loc vs ar_loc, atom_loc_ao vs bas[ATOM_OF]) coincide",
